@@ -98,7 +98,7 @@ def argv_for(o, paths, outpath):
     return a
 
 
-def api_numbers(pa, eff, paths):
+def api_numbers(pa, eff, paths, fast=True, soft=False):
     """The API calls the spec says the command line is equivalent to."""
     np.random.seed(int(eff["seed"]))
     out = []
@@ -112,7 +112,7 @@ def api_numbers(pa, eff, paths):
         d = pa.CombinedCategoricalDissimilarity(alpha=float(eff["alpha"]), beta=float(eff["beta"]), delta_empty=float(eff["delta_empty"]),
                                                 cat_dissim=cat)
         sampler = pa.ShuffleContinuumSampler() if eff["sampler"] == "ShuffleContinuumSampler" else None
-        g = c.compute_gamma(dissimilarity=d, precision_level=float(eff["precision"]), fast=True, sampler=sampler,
+        g = c.compute_gamma(dissimilarity=d, precision_level=float(eff["precision"]), fast=fast, soft=soft, sampler=sampler,
                             n_samples=int(eff["n_samples"]))
         e = {"gamma": float(g.gamma)}
         if "gamma-cat" in eff["reports"]:
@@ -258,6 +258,11 @@ def run(tier, rep):
                     "pos_delta_empty": float(eff["delta_empty"]), "sampler": eff["sampler"],
                     "precision": float(eff["precision"]), "n_samples": int(eff["n_samples"]), "fast": True, "soft": False, "ground_truth": "all"}
             diff = {k: (cfg[k], want[k]) for k in want if cfg[k] != want[k]}
+            # the algorithm (fast / soft) and the ground truth the tool uses are not among the options the statement lists:
+            # a departure from what the tool does today is a NOTE; the numbers are compared with the API in the SAME mode
+            outside = {k: diff.pop(k) for k in ("fast", "soft", "ground_truth") if k in diff}
+            if outside:
+                rep.beyond("cli.mode." + "+".join(sorted(outside)), dict(detail, used_vs_spec=outside))
             # a category-aware dissimilarity must have been built from THIS file's categories
             if cfg["cat_categories"] is not None and cfg["cat_categories"] != cfg["file_categories"]:
                 diff["cat_categories"] = (cfg["cat_categories"], cfg["file_categories"])
@@ -272,7 +277,8 @@ def run(tier, rep):
         except Exception as ex:
             rep.violation("cli.output_unreadable", dict(detail, exception=repr(ex), stdout=buf.getvalue()[:500]))
             continue
-        want_nums = api_numbers(pa, eff, [str(x) for x in paths])
+        mode_seen = seen_cfg[0] if seen_cfg else {"fast": True, "soft": False}
+        want_nums = api_numbers(pa, eff, [str(x) for x in paths], fast=bool(mode_seen["fast"]), soft=bool(mode_seen["soft"]))
         if len(got) != len(want_nums) or not all(close(g, w) for g, w in zip(got, want_nums)):
             rep.violation("cli.numbers_differ", dict(detail, cli=got, api=want_nums))
         if idx < 2:
